@@ -75,6 +75,28 @@ class Opt:
         self.some = some
 
 
+class AbsIter:
+    """Abstract inner iterator (A-LIB): yields the given items in order, then None."""
+    def __init__(self, items):
+        self.items = list(items)
+
+    def next(self):
+        if self.items:
+            return Opt(self.items.pop(0), True)
+        return Opt(None, False)
+
+
+class ListIter:
+    """slice.iter() / iter_mut() [.enumerate()]: concrete length, symbolic elements."""
+    def __init__(self, arr, lo, hi, mutable, enumerate_=False):
+        self.arr, self.lo, self.hi, self.mutable, self.enum = arr, lo, hi, mutable, enumerate_
+
+
+class Closure:
+    def __init__(self, params, body, frame):
+        self.params, self.body, self.frame = params, body, frame
+
+
 class RangeV:
     def __init__(self, lo, hi, incl):
         self.lo, self.hi, self.incl = lo, hi, incl
@@ -126,6 +148,8 @@ class Crate:
             k = it["k"]
             if k == "impl":
                 ty = it["target"].replace(" ", "")
+                if "<" in ty and not ty.startswith("&"):
+                    ty = ty[:ty.index("<")]      # generic impls (IterWidths<T>): keyed by the type constructor
                 for f in it["items"]:
                     if f["k"] == "fn":
                         f["_impl_trait"] = it.get("trait")
@@ -470,6 +494,12 @@ class Exec:
             return tm.INF
         if segs[-2:] == ["f64", "NEG_INFINITY"]:
             return -tm.INF
+        if segs[-2:] == ["f64", "EPSILON"]:
+            return T.num(Fraction(1, 2 ** 52), REAL)
+        if segs[-2:] == ["f64", "MIN_POSITIVE"]:
+            return T.num(Fraction(1, 2 ** 1022), REAL)
+        if segs[-2:] == ["f64", "MAX"]:
+            return T.num(Fraction((2 ** 53 - 1) * 2 ** 971), REAL)
         raise Unsupported("path %s at line %s" % ("::".join(segs), e.get("ln")))
 
     def e_field(self, e, frame):
@@ -666,6 +696,17 @@ class Exec:
 
     def e_for(self, e, frame):
         it = self.expr(e["iter"], frame)
+        if isinstance(it, ListIter):
+            try:
+                for k in range(it.lo, it.hi):
+                    item = Ref(Place(it.arr, k)) if it.mutable else it.arr[k]
+                    if it.enum:
+                        item = (T.num(k - it.lo, UINT), item)
+                    self.bind(frame, e["pat"], item)
+                    self.block(e["body"], frame)
+            except BreakSig:
+                pass
+            return UNIT
         if not isinstance(it, RangeV):
             raise Unsupported("for over non-range at line %s" % e.get("ln"))
         lo, hi = it.lo, it.hi
@@ -684,6 +725,17 @@ class Exec:
         lo = self.expr(e["lo"], frame) if e["lo"] else None
         hi = self.expr(e["hi"], frame) if e["hi"] else None
         return RangeV(lo, hi, e["incl"])
+
+    def e_closure(self, e, frame):
+        return Closure(e["params"], e["body"], frame)
+
+    def call_closure(self, c, args):
+        fr = dict(c.frame)
+        if len(c.params) != len(args):
+            raise Unsupported("closure arity")
+        for p, a in zip(c.params, args):
+            self.bind(fr, p, a)
+        return self.expr(c.body, fr)
 
     def e_return(self, e, frame):
         v = self.expr(e["e"], frame) if e["e"] is not None else UNIT
@@ -801,18 +853,47 @@ class Exec:
                 return self.call(robj.ty, m, robj, args)
             if m == "clone":
                 return dcopy(robj)
+            for (ty, name) in list(self.crate.fns):
+                if name == m and isinstance(ty, str) and ty.startswith("trait:"):
+                    return self.call(ty, m, robj, args)
+            if m == "into_iter":
+                return AbsIter([])   # opaque: only carried around, never advanced by the code under contract
             raise Undecided("lost anchor: method %s::%s at line %s" % (robj.ty, m, ln))
         if isinstance(robj, Opt):
             if m == "unwrap":
                 if not robj.some:
                     raise PanicSig("called Option::unwrap() on a None value", ln)
                 return robj.v
+            if m == "map" and isinstance(args[0], Closure):
+                if not robj.some:
+                    return Opt(None, False)
+                return Opt(self.call_closure(args[0], [robj.v]), True)
             raise Unsupported("Option::%s" % m)
+        if isinstance(robj, AbsIter):
+            if m == "next":
+                return robj.next()
+            raise Unsupported("iterator method %s at line %s" % (m, ln))
+        if isinstance(robj, ListIter):
+            if m == "enumerate":
+                return ListIter(robj.arr, robj.lo, robj.hi, robj.mutable, True)
+            if m == "sum" and not robj.enum:
+                tot = T.num(0, UINT)
+                for k in range(robj.lo, robj.hi):
+                    tot = tot + robj.arr[k]
+                return tot
+            raise Unsupported("iterator method %s at line %s" % (m, ln))
+        if isinstance(robj, Ref) and robj.lo is not None and m in ("iter", "iter_mut", "len"):
+            arr = self.deref(robj)
+            if m == "len":
+                return T.num(robj.hi - robj.lo, UINT)
+            return ListIter(arr, robj.lo, robj.hi, m == "iter_mut")
         if isinstance(robj, RangeV) and m == "contains":
             x = self.deref(args[0]) if isinstance(args[0], Ref) else args[0]
             c = And(robj.lo.le(x), x.le(robj.hi) if robj.incl else x.lt(robj.hi))
             return c
         if isinstance(robj, Arr):
+            if m in ("iter", "iter_mut"):
+                return ListIter(robj, 0, len(robj), m == "iter_mut")
             if m == "len":
                 return T.num(len(robj), UINT)
             if m == "clone":
